@@ -79,7 +79,7 @@ var specs = map[string]spec{
 		Level:     "model_checking",
 		Rule:      "a state is a distinct bundle (body x declarations x mutation); a transition is one compilation (plus one probed render when accepted); every case is non-trivial (a verdict accept/reject is compared)",
 		Bounds: map[string]string{
-			"quick":    "all C02 bodies unmutated; mutations (9 site kinds at every site, declaration drops, unused param, three forms of mixed soydoc/header declarations) on every seventh body",
+			"quick":    "all C02 bodies unmutated; mutations (9 site kinds at every site, declaration drops, unused param, three forms of mixed soydoc/header declarations, stricter second definitions of the library before and after it) on every seventh body",
 			"thorough": "mutations on every body; nested blocks over inner lists of <=2 leaves",
 		},
 		Assumptions: commonAssumptions, Plain: true, QuickStride: 1, ThoroughStride: 2, QuickDeadline: 420, ThoroughDeadline: 3000,
@@ -103,7 +103,7 @@ var specs = map[string]spec{
 		Level:     "fault_enumeration",
 		Rule:      "a case is a (template, data, message bundle or not) triple; evaluations counts cases, counter fault_runs counts faulty renders; non-trivial = the fault-free render performs at least one write call",
 		Bounds: map[string]string{
-			"quick":    "19 hand-written templates x 3 data sets x {no bundle, identity bundle} + first 1500 bodies of the C02 grammar; all 2k+B fault points each",
+			"quick":    "23 hand-written templates x 3 data sets x {no bundle, identity bundle} x {entry template first, last in its file} + first 1500 bodies of the C02 grammar; all 2k+B fault points each",
 			"thorough": "first 30000 bodies of the C02 grammar",
 		},
 		Assumptions: commonAssumptions, Plain: true, QuickStride: 1, ThoroughStride: 1, QuickDeadline: 420, ThoroughDeadline: 3000,
@@ -127,7 +127,7 @@ var specs = map[string]spec{
 		Level:     "model_checking",
 		Rule:      "states = distinct state digests reached + histories explored (a history is the state key because live objects cannot be cloned); transitions = operations executed (counter operations); every history is non-trivial (>=1 operation compared with its initial-state output)",
 		Bounds: map[string]string{
-			"quick":    "3 bundles x 4 configurations (default, custom function/directives, one and two obligatory print directives) x all histories of length <=3 over 17-23 operations",
+			"quick":    "4 bundles x 4 configurations (default, custom function/directives, one and two obligatory print directives) x all histories of length <=3 over 13-23 operations",
 			"thorough": "same (the search closes at one state per configuration)",
 		},
 		Assumptions: commonAssumptions, Plain: true, QuickStride: 1, ThoroughStride: 1, QuickDeadline: 420, ThoroughDeadline: 3000,
@@ -151,7 +151,7 @@ var specs = map[string]spec{
 		Level:     "model_checking",
 		Rule:      "a state is a bundle (snippet pair x injected errors); transitions = pipeline executions under distinct map orders and insertion orders (counter map_orders_explored); every case is non-trivial",
 		Bounds: map[string]string{
-			"quick":    "78 snippet pairs without errors + adjacent pairs x 7 error sets; 6 insertion orders; map-order deviation bound 2/1; a second compilation in the canonical-order executions; package variables restored before every execution",
+			"quick":    "91 snippet pairs (13 snippets) without errors + adjacent pairs x 7 error sets; 11 error bundles; 6 insertion orders; map-order deviation bound 2/1; a second compilation in the canonical-order executions; package variables restored before every execution",
 			"thorough": "all pairs x all error sets; deviation bound 3 (capped at 20000 orders per bundle) for the first insertion order, 1 for the others",
 		},
 		Assumptions: commonAssumptions, Plain: true, QuickStride: 1, ThoroughStride: 1, QuickDeadline: 420, ThoroughDeadline: 3000, OrderSensitive: true,
@@ -187,7 +187,7 @@ var specs = map[string]spec{
 		Level:     "model_checking",
 		Rule:      "a state is a (file, line ending, line, fault, placement) tuple; a transition is one parse or compile+render; non-trivial = the mutated input produced an error whose position was checked",
 		Bounds: map[string]string{
-			"quick":    "4 files (11-19 lines) x 2 line endings x every line x 14 faults x 2 placements; 7 lines x 5 attribute faults x 2 endings; 2 endings x depth 0-3 x 6 paddings x 7 positions (5 block kinds, calls with value params / a block param on their own lines) x 4 failing prints; inputs under distinct names, one shared name (both orders) and the empty name",
+			"quick":    "4 files (11-19 lines) x 2 line endings x every line x 14 faults x 2 placements; 7 lines x 5 attribute faults x 2 endings; 2 endings x depth 0-3 x 6 paddings x 7 positions (5 block kinds, calls with value params / a block param on their own lines) x 4 failing prints; 3 quoted-attribute positions; 2 endings x 2 leads x 10 marked writes (failing writer); every second file begins with blank lines; inputs under distinct names, one shared name (both orders) and the empty name",
 			"thorough": "same",
 		},
 		Assumptions: commonAssumptions, Plain: true, QuickStride: 1, ThoroughStride: 1, QuickDeadline: 420, ThoroughDeadline: 3000,
@@ -235,7 +235,7 @@ var specs = map[string]spec{
 		Level:     "model_checking",
 		Rule:      "a state is a group of three generated messages (one bundle, one extractor run); transitions = renders with a catalogue (counter renders); every group is non-trivial",
 		Bounds: map[string]string{
-			"quick":    "message bodies of <=3 parts over 14 parts (+ call and meaning variants for 2-part bodies), 26 plurals; 3+7 catalogues x 3 locales x 4 data sets each; every plain message also before and after a neighbour message with like-named placeholders",
+			"quick":    "message bodies of <=3 parts over 14 parts (+ call and meaning variants for 2-part bodies), 26 plurals; 3+7 catalogues x 3 locales x 4 data sets each (plural counts 1, 3, -1, 0); every plain message also before and after a neighbour message with like-named placeholders",
 			"thorough": "same",
 		},
 		Assumptions: commonAssumptions, Plain: true, QuickStride: 8, ThoroughStride: 8, QuickDeadline: 500, ThoroughDeadline: 3000,
